@@ -50,6 +50,7 @@ class MC:
         self.born = None
         self.usage = 0.0
         self.boundary = False   # sits right after a completed non-final operator
+        self.end_step = None
 
 
 class Ambiguous(Exception):
@@ -176,12 +177,18 @@ class World:
                 seen.add(mc.ordinal)
             asg = [a for a in step.get("asg", []) if a["pool"] == k]
             if asg:
-                if sum(a["cpu"] for a in asg) > self.free_cpu[k] and not near(sum(a["cpu"] for a in asg), self.free_cpu[k]):
+                totc = sum(a["cpu"] for a in asg)
+                if totc > self.free_cpu[k] and not near(totc, self.free_cpu[k]):
                     return ("oversell-cpu", k, ("C03",))
+                if totc != self.free_cpu[k] and near(totc, self.free_cpu[k], 1e-12) and not float(totc).is_integer():
+                    self.soft_reject = ("oversell-cpu", k, ("C03",))
                 if not self.overcommit:
                     tot = sum(a["ram"] for a in asg)
                     if tot > self.free_ram[k] and not near(tot, self.free_ram[k], 1e-12):
                         return ("oversell-ram", k, ("C03",))
+                    if near(tot, self.free_ram[k], 1e-12) and len(asg) > 1 or (tot > self.free_ram[k]):
+                        # the sum is within float rounding of the free amount: either verdict is fine
+                        self.soft_reject = ("oversell-ram", k, ("C03",))
                 for a in asg:
                     if not self.multi and len(a["ops"]) != 1:
                         return ("op-count", k, ("C08",))
@@ -228,6 +235,7 @@ class World:
     def do_step(self, step):
         sus_cmds = step.get("sus", [])
         asg_cmds = step.get("asg", [])
+        self.soft_reject = None
         expect = self.predict_reject(step)
         before = [self.pool_snapshot(k) for k in range(self.npools)]
 
@@ -286,6 +294,10 @@ class World:
                     if [self.pool_snapshot(k) for k in range(self.npools)] != before:
                         self.problem(("C09",), "reject-changed-state", "unknown pool refused but pools changed")
                 self.ended = "rejected:" + reason
+                return
+            if self.soft_reject is not None and "Overallocated" in str(exc):
+                self.ev("rejected:float-boundary-batch")
+                self.ended = "rejected:float-boundary"
                 return
             # maybe a dependency violation the model predicts for this tick
             dep = self.model_advance(built, sus_cmds, observed=None, dry=True)
@@ -386,6 +398,7 @@ class World:
                 mc.sus_left -= 1
                 if mc.sus_left == 0:
                     mc.status = "suspended"
+                    mc.end_step = self.step_no
                     self.suspending[k].remove(mc)
                     self.suspended[k].append(mc)
                     self.free_cpu[k] += mc.cpu
@@ -465,6 +478,7 @@ class World:
                     for key in mc.keys[mc.ncomp:]:
                         self.mstate[key] = "failed"
                 if mc.status in ("ok", "failed"):
+                    mc.end_step = self.step_no
                     mc.usage = 0.0
                     self.active[k].remove(mc)
                     self.free_cpu[k] += mc.cpu
@@ -516,7 +530,7 @@ class World:
                 d = max(d, alloc * (1 + 1e-6) + 1e-6)
             elif c["over"] is False and d > alloc:
                 d = alloc
-            cc.append({"id": c["mc"].cid, "demand": d, "alloc": alloc, "finished": c["finished"]})
+            cc.append({"id": c["mc"].cid, "demand": d, "alloc": alloc, "finished": c["finished"], "over": bool(c["indiv"])})
         return check_pool_kills(cc, self.ram, self.overcommit, obs_failed)
 
     # ------------------------------------------------------------------ comparison real vs model
